@@ -61,11 +61,12 @@ Definition answer_allowed (blocking : bool) (answer_type : Z) : bool :=
 (* Server.RequestTxIds + handleReplyTxIds / handleDone *)
 Definition s_req_ids (st : sstate) (blocking : bool) (req : Z) (rep : reply)
   : sstate * option smsg * result :=
-  if negb (s_alive st) then (st, None, RDown) else
+  (* the argument and ackCount checks come first, SendMessage notices a dead protocol after them *)
   if req <? 0 then (st, None, RExceeded) else
   if req >? max_request_count then (st, None, RExceeded) else
   if ack_count st <? 0 then (st, None, RExceeded) else
   if ack_count st >? max_ack_count then (st, None, RExceeded) else
+  if negb (s_alive st) then (st, None, RDown) else
   let w := WReqIds blocking (u16 (ack_count st)) (u16 req) in
   match rep with
   | RIds n =>
